@@ -446,8 +446,8 @@ static ASMJIT_FAVOR_SIZE Error validate(InstDB::Mode mode, const BaseInst& inst,
               op_flags |= InstDB::OpFlags::kFlagMib;
           }
 
-          // [RIP + {XMM|YMM|ZMM}] is not allowed.
-          if (base_type == RegType::kPC && Support::test(op_flags, InstDB::OpFlags::kVmMask)) {
+          // [RIP + INDEX] is not allowed - neither a general purpose nor a vector index register.
+          if (base_type == RegType::kPC) {
             return make_error(Error::kInvalidAddress);
           }
 
